@@ -37,7 +37,8 @@ pos = st.floats(min_value=1e-3, max_value=1e6, allow_nan=False)
 @st.composite
 def duccio_cases(draw):
     n = draw(st.integers(1, 3))
-    names = ['m%d' % i for i in range(n)]
+    # metric names as users write them, in any (usually not alphabetical) order
+    names = list(draw(st.permutations(['params', 'ops', 'latency', 'energy', 'size'])))[:n]
     targets = [draw(pos) for _ in names]
     given = draw(st.booleans())
     # derived strengths are positive only if every initial cost exceeds its target (premise)
